@@ -196,6 +196,61 @@ func (e *Expr) String() string {
 	return fmt.Sprintf("<?%s>", e.Op)
 }
 
+// binPrec is the binding strength of the infix operators of the fragment as the operator table of the pinned
+// tree has it (union 10, and/or 20, pipe 30, comparisons 40, // and arithmetic 42); 0 = not an infix node.
+func (e *Expr) binPrec() int {
+	switch e.Op {
+	case OpUnion:
+		return 10
+	case OpPipe:
+		if e.Post && isStep(e.R) && postfixable(e.L) && (e.L.Op != OpSelf || e.R.Op != OpKey) {
+			return 0 // printed as a postfix chain
+		}
+		return 30
+	case OpBin:
+		switch e.S {
+		case "and", "or":
+			return 20
+		case "==", "!=", "<", "<=", ">", ">=":
+			return 40
+		case "//", "+", "-", "*", "/", "%":
+			return 42
+		}
+	}
+	return 0
+}
+
+// StringMin prints the expression with only the brackets the precedence table makes necessary around infix
+// operators (ties group to the right, as the parser does); everything else is spelled as String() spells it.
+func (e *Expr) StringMin() string { return e.minStr(0, false) }
+
+func (e *Expr) minStr(parent int, left bool) string {
+	p := e.binPrec()
+	if p == 0 {
+		switch e.Op {
+		case OpCollect:
+			if e.L != nil {
+				return "[" + e.L.minStr(0, false) + "]"
+			}
+		case OpFn1:
+			return e.S + "(" + e.L.minStr(0, false) + ")"
+		}
+		return e.String()
+	}
+	op := " " + e.S + " "
+	switch e.Op {
+	case OpUnion:
+		op = ", "
+	case OpPipe:
+		op = " | "
+	}
+	s := e.L.minStr(p, true) + op + e.R.minStr(p, false)
+	if parent > 0 && (p < parent || (p == parent && left)) {
+		return "(" + s + ")"
+	}
+	return s
+}
+
 func (e *Expr) objKey() string {
 	if e.Op == OpLit && e.Lit.K == Str {
 		return ExprString(e.Lit.S)
